@@ -106,6 +106,14 @@ fn minimize(case: &Case, sig: &str) -> String {
     lines.join("\n")
 }
 
+/// `Out::fail` with the input appended to the detail as a `CASE` line, so that the replay file
+/// written by the runner can be re-run with `--replay` (the runner only copies the id of a
+/// harness-decided failure)
+fn fail_with_input(out: &mut Out, case: &Case, id: &str, signature: &str, detail: &str) {
+    let d = format!("{detail}\nCASE\t{id}\tN\tdecode\t{}\t{}", esc(case.kind), esc(&case.src));
+    out.fail(id, signature, &d);
+}
+
 fn run_case(out: &mut Out, case: &Case) {
     let bytes = match guarded(|| build(case)) {
         Ok(Ok(b)) => b,
@@ -154,13 +162,13 @@ fn run_case(out: &mut Out, case: &Case) {
             if e.contains("not yet supported") {
                 out.count("decode-unsupported");
             } else {
-                out.fail(&id, "from_bytes: error on a valid component", &e);
+                fail_with_input(out, case, &id, "from_bytes: error on a valid component", &e);
             }
             return;
         }
         Err(p) => {
             let id = out.case(nontrivial, "decode-panic", &[esc(case.kind), esc(&case.src), esc(&w), esc(&p)]);
-            out.fail(&id, &format!("from_bytes: panic: {}", p.chars().take(80).collect::<String>()), &p);
+            fail_with_input(out, case, &id, &format!("from_bytes: panic: {}", p.chars().take(80).collect::<String>()), &p);
             return;
         }
     };
@@ -172,7 +180,7 @@ fn run_case(out: &mut Out, case: &Case) {
     match guarded(move || oracles("test:pkg", if with_ver { Some(&ver) } else { None }, &b3)) {
         Err(p) => {
             out.count("oracle:encode-panic");
-            out.fail(&id, &format!("TypeEncoder::component: panic: {}", p.chars().take(80).collect::<String>()), &p);
+            fail_with_input(out, case, &id, &format!("TypeEncoder::component: panic: {}", p.chars().take(80).collect::<String>()), &p);
         }
         Ok(r) => {
             if r.reflexive != Some(true) {
@@ -183,27 +191,27 @@ fn run_case(out: &mut Out, case: &Case) {
             }
             if let Some(e) = &r.encode_error {
                 out.count("oracle:encode-error");
-                out.fail(&id, &format!("TypeEncoder::component: error: {}", e.chars().take(80).collect::<String>()), e);
+                fail_with_input(out, case, &id, &format!("TypeEncoder::component: error: {}", e.chars().take(80).collect::<String>()), e);
                 return;
             }
             if let Err(e) = &r.composition_valid {
                 out.count("oracle:composition-invalid");
-                out.fail(&id, &format!("written unlocked-dep component type is invalid: {}", e.chars().take(100).collect::<String>()), e);
+                fail_with_input(out, case, &id, &format!("written unlocked-dep component type is invalid: {}", e.chars().take(100).collect::<String>()), e);
                 return;
             }
             if !r.extra_imports.is_empty() {
                 out.count("oracle:extra-imports");
-                out.fail(&id, "written unlocked-dep component type has an import the component does not have", &r.extra_imports.join(" "));
+                fail_with_input(out, case, &id, "written unlocked-dep component type has an import the component does not have", &r.extra_imports.join(" "));
             }
             match r.subtype {
                 Some(true) => out.count("oracle:A-subtype-ok"),
                 Some(false) => {
                     out.count("oracle:A-subtype-false");
-                    out.fail(&id, "actual component type is not a subtype of the unlocked-dep import type", "");
+                    fail_with_input(out, case, &id, "actual component type is not a subtype of the unlocked-dep import type", "");
                 }
                 None => {
                     out.count("oracle:A-not-evaluated");
-                    out.fail(&id, "unlocked-dep import not found in the written component (or the validator panicked)", "");
+                    fail_with_input(out, case, &id, "unlocked-dep import not found in the written component (or the validator panicked)", "");
                 }
             }
             if r.supertype == Some(true) {
@@ -215,7 +223,7 @@ fn run_case(out: &mut Out, case: &Case) {
                 Some(Ok(())) => out.count("oracle:B-substituted-valid"),
                 Some(Err(e)) => {
                     out.count("oracle:B-substituted-invalid");
-                    out.fail(&id, &format!("instantiating the importer with the real component is invalid: {}", e.chars().take(100).collect::<String>()), e);
+                    fail_with_input(out, case, &id, &format!("instantiating the importer with the real component is invalid: {}", e.chars().take(100).collect::<String>()), e);
                 }
                 None => {}
             }
